@@ -1,23 +1,21 @@
 #!/bin/bash
-# tools/try_seed.sh <seed-dir-name> <property> [extra properties...]: validate a seeded change and run the checks against it.
-# The seed lives in /tmp/seed_<name> (a scratch worktree with the change applied, patch.diff and demo_*.py).
+# tools/try_seed.sh <worktree> <property> [more properties...]: validate a seeded change that is applied in a scratch
+# worktree (patch.diff and demo_*.py inside it) and run the listed checks against that worktree (VERIF_REPO; /repo untouched).
 set -u
-NAME=$1; shift
+W=$1; shift
 PROPS="$@"
-W=/tmp/seed_$NAME
+N=$(basename $W)
 cd $W || exit 9
 DEMO=$(ls demo_*.py | head -1)
-git diff -- src > /tmp/seed_$NAME.patch
-[ -s /tmp/seed_$NAME.patch ] || cp patch.diff /tmp/seed_$NAME.patch
-echo "== suite with change"; PYTHONPATH=$W/src /venv/bin/python -m pytest -q -p no:cacheprovider 2>&1 | tail -1
-echo "== demo with change"; PYTHONPATH=$W/src /venv/bin/python $DEMO >/tmp/seed_$NAME.demo_with 2>&1; echo "exit=$?"; tail -2 /tmp/seed_$NAME.demo_with | cut -c1-200
-git stash -q -- src
-echo "== demo without change"; PYTHONPATH=$W/src /venv/bin/python $DEMO >/tmp/seed_$NAME.demo_without 2>&1; echo "exit=$?"; tail -1 /tmp/seed_$NAME.demo_without | cut -c1-200
-git stash pop -q
-cd /verif
-git -C /repo apply /tmp/seed_$NAME.patch || { echo "patch does not apply to /repo"; exit 8; }
+git diff -- src > /tmp/$N.patch
+[ -s /tmp/$N.patch ] || { cp patch.diff /tmp/$N.patch; git apply /tmp/$N.patch; }
+echo "== suite with change: $(PYTHONPATH=$W/src /venv/bin/python -m pytest -q -p no:cacheprovider 2>&1 | tail -1)"
+PYTHONPATH=$W/src /venv/bin/python $DEMO >/tmp/$N.demo_with 2>&1; echo "== demo with change: exit=$? $(tail -1 /tmp/$N.demo_with | cut -c1-160)"
+git apply -R /tmp/$N.patch   # (not git stash: the stash is shared by all worktrees of the repository)
+PYTHONPATH=$W/src /venv/bin/python $DEMO >/tmp/$N.demo_without 2>&1; echo "== demo without change: exit=$? $(tail -1 /tmp/$N.demo_without | cut -c1-160)"
+git apply /tmp/$N.patch
+cd "$(dirname "$0")/.." 2>/dev/null || cd /verif
 for P in $PROPS; do
-  echo "== check $P on the seeded tree"; ./check $P > /tmp/seed_$NAME.check_$P 2>&1; echo "exit=$?"; grep -E "^(VIOLATION|UNDECIDED|ENGINE|UNSUPPORTED|STALE|KNOWN|C[0-9]+:)" /tmp/seed_$NAME.check_$P | cut -c1-330 | head -8
+  VERIF_REPO=$W VERIF_EVIDENCE_DIR=/tmp/ev_$N ./check $P > /tmp/$N.check_$P 2>&1; echo "== check $P: exit=$?"
+  grep -E "^(VIOLATION|UNDECIDED|ENGINE|UNSUPPORTED|STALE|KNOWN|C[0-9]+:)" /tmp/$N.check_$P | cut -c1-300 | head -6
 done
-git -C /repo checkout -- .
-git -C /repo status --short | head -3
